@@ -68,6 +68,18 @@ CHECKS = {
         text="Generated sequences of config/delete/reset/step operations via script and configuration; after every step the trace equals that of a fresh module holding the same objects, reference counts and atom requests equal those recomputed from the live graph, and no freed memory is touched (ASan).",
         note="Objects that carry history (extended Lagrangian, history-dependent biases) are excluded from the fresh-module comparison by a taint rule, still covered by the invariants.",
         design="DESIGN.md section 4 C13"),
+    "C14": dict(
+        technique="stateful property testing over schedules (Hypothesis) with the harness owning the interleaving: 2-4 walker processes driven through pipes; model of 'every sample/hill exactly once'; fault injection (peer death, restart at an exchange boundary, peer hills file cut at a generated byte)",
+        level="exploration",
+        text="Shared ABF over a socket star: final samples/gradient/local arrays of every walker against the union model (counts exact, means 1e-10), peer death leaves survivors' data intact and is reported as an error. Multiple-walker metadynamics through files: per-site hill multiplicities decoded from each walker's bias at every probe, bounded below by what peers had published and above by what they deposited; own state holds own hills only.",
+        note="Two listed known findings (ABF sample of the exchange step lost over a restart; metadynamics state-rewrite lag) are reported as KNOWN-FINDING and the case continues with the weaker bound. Errors raised while a peer's file is incomplete are tolerated (the property only forbids corruption). OPES multiple walkers and shared CZAR are not generated.",
+        design="DESIGN.md section 4 C14"),
+    "C20": dict(
+        technique="coverage-guided fuzzing (libFuzzer, ASan+UBSan) of script command sequences with the 'result xor error' and 'module still usable' oracles inside the target; property-based testing (Hypothesis) of query/trace agreement and of script-vs-engine action equivalence",
+        level="exploration",
+        text="Command sequences over the registered command table with malformed arguments interleaved with steps; every query type compared with the engine-side trace of the same step at the printed precision, atomic forces = sum of script forces x script gradients; cv config/configfile/load/loadfromstring/save/addforce/bias state commands compared with the engine or configuration path (bitwise where the arithmetic is the same).",
+        note="Energies are printed with 6 significant digits by the interface; agreement is checked at that precision (stated assumption).",
+        design="DESIGN.md section 4 C20"),
     "C15": dict(
         technique="property-based testing: Hypothesis bin model for histogram binning; rapidcheck round-trips of grid files (multicolumn, restart text/binary, raw)",
         level="exploration",
